@@ -1,6 +1,7 @@
 import CnbVerif.Base.Proto
 import CnbVerif.Base.Words
 import CnbVerif.Model.TestRunner
+import CnbVerif.Model.TestRunnerFaults
 /-!
 Glue shared by the C16 and C17 drivers: decoding a libcnb-test scenario case (formats: `harness/src/lct/mod.rs`),
 rendering the model's run as the canonical observation, decoding an observation. No property logic here.
@@ -164,6 +165,38 @@ def parseFixture (s : String) : Option (List (Bytes × Bytes)) :=
     | _ => none))
 
 inductive Inj | none | failAt (k : Nat) | packGone (j : Nat) | dockerGone (j : Nat)
+  /-- a fault script (`Model/TestRunnerFaults`): any number of failing commands, selected by kind and position / container -/
+  | script (rules : List FRule)
+
+/-- `1`..`255` or `sig` -/
+def isFailStatus (st : String) : Bool :=
+  st == "sig" || (match st.toNat? with | some n => decide (0 < n ∧ n < 256) | Option.none => false)
+
+def parseFKind (s : String) : Option FKind :=
+  if s = "pb" then some .packBuild else if s = "sb" then some .sbom else if s = "rd" then some .runDetached
+  else if s = "rr" then some .runAttached else if s = "ln" then some .logsNow else if s = "lf" then some .logsFollow
+  else if s = "lg" then some .logs else if s = "ex" then some .exec else if s = "po" then some .port
+  else if s = "rm" then some .rm else if s = "ri" then some .rmi else if s = "vr" then some .volRm
+  else if s = "nr" then some .notRm else if s = "any" then some .any else Option.none
+
+def posNat (s : String) : Option Nat := s.toNat?.bind (fun k => if k = 0 then Option.none else some k)
+
+def parseFSel (s : String) : Option FSel :=
+  match s.toList with
+  | ['a'] => some .all
+  | 'g' :: r => (posNat (String.ofList r)).map .atIdx
+  | 'f' :: r => (posNat (String.ofList r)).map .fromIdx
+  | 'c' :: r => (posNat (String.ofList r)).map .ctr
+  | _ => Option.none
+
+/-- `<kind>.<selector>[.<exit status>|.sig]` — the model does not look at the status -/
+def parseFRule (s : String) : Option FRule :=
+  match s.splitOn "." with
+  | [k, sel] => (match parseFKind k, parseFSel sel with | some k, some sel => some ⟨k, sel⟩ | _, _ => Option.none)
+  | [k, sel, st] =>
+    if isFailStatus st then (match parseFKind k, parseFSel sel with | some k, some sel => some ⟨k, sel⟩ | _, _ => Option.none)
+    else Option.none
+  | _ => Option.none
 
 /-- `z:<k>[:<exit status>|:sig]`: the model does not look at the status — any unsuccessful exit is `nonzero` -/
 def parseInjBase (s : String) : Option Inj :=
@@ -176,6 +209,7 @@ def parseInjBase (s : String) : Option Inj :=
       else Option.none
     | ["nfp", j] => j.toNat?.bind (fun j => if j = 0 then Option.none else some (.packGone j))
     | ["nfd", j] => j.toNat?.bind (fun j => if j = 0 then Option.none else some (.dockerGone j))
+    | ["f", rules] => (allSome ((rules.splitOn "+").map parseFRule)).map .script
     | _ => Option.none
 
 /-- `<injection>[@<flavour>]`; the flavour (0..3) selects what the stand-in tools print. Only flavour 3 matters to the
@@ -194,6 +228,7 @@ def oracleOf : Inj → Oracle
   | .failAt k => fun i _ _ => if i + 1 = k then some .nonzero else Option.none
   | .packGone j => fun _ c n => if c.prog = .pack ∧ n + 1 ≥ j then some .notFound else Option.none
   | .dockerGone j => fun _ c n => if c.prog = .docker ∧ n + 1 ≥ j then some .notFound else Option.none
+  | .script rules => faultOracle rules
 
 /-- with an unparsable `docker port` output every look-up of an exposed port is "the command, then a panic" -/
 def unparsablePort : Act → Act
